@@ -389,7 +389,9 @@ func (w *world) RoundTrip(req *http.Request) (*http.Response, error) {
 	res := w.handle(req, body)
 	rec.Status = res.StatusCode
 	rec.Loc = res.Header.Get("Location")
-	g.lastLabel, g.lastURL, g.lastMethod, g.lastStatus, g.lastLoc = rec.Path, rec.URL, req.Method, res.StatusCode, rec.Loc
+	if rec.Path != "token" { // token fetches happen between a 401 and its authorised retry
+		g.lastLabel, g.lastURL, g.lastMethod, g.lastStatus, g.lastLoc = rec.Path, rec.URL, req.Method, res.StatusCode, rec.Loc
+	}
 	g.log = append(g.log, rec)
 	return res, nil
 }
